@@ -131,3 +131,13 @@ func VerifC18DumpState(f *TxFetcher, name func(common.Hash) string) *VerifC18Dum
 	sort.Strings(d.Underpriced)
 	return d
 }
+
+// VerifC18WrapFetch replaces the fetchTxs callback by wrap(original). The callback is called by the
+// request goroutines the loop spawns in scheduleFetches (`go func(peer, hashes) { f.fetchTxs(...) }`),
+// which have no synchronisation with the reactor's Receive / RemovePeer: the checker's wrapper can hold
+// such a call at a gate (a delayed thread) and recovers a panic of the real callback (the goroutine has
+// no recover in production; the wrapper is the goroutine body's callee, so this observes exactly the
+// panic that would kill the process). Call before the loop starts.
+func VerifC18WrapFetch(f *TxFetcher, wrap func(orig func(string, []common.Hash) error) func(string, []common.Hash) error) {
+	f.fetchTxs = wrap(f.fetchTxs)
+}
